@@ -174,7 +174,7 @@ TrUToSk ==
   /\ bits' = Put(bits, Ev.to, ubits[Ev.id].m)
   /\ LET r == obj'[Ev.to] IN
      /\ On("C06") => /\ FullOK(r, Ev) /\ Matrix(r) = ubits[Ev.id].m /\ r.lgk = ubits[Ev.id].lgk
-                     /\ Ev.lgk = r.lgk /\ (r.c > 0 => r.merged)
+                     /\ Ev.lgk = r.lgk /\ r.merged
      /\ ObsOK(r, Ev.o)
   /\ UNCHANGED <<uni, ubits>>
 
